@@ -738,6 +738,18 @@ def gen_value(src):
         y = gen_year(src)
         m = src.int(1, 12)
         d = src.int(1, cal.dim(y, m))
+        if src.bool(0.2):
+            # one component just outside its range (or on its last valid value): month 0 / 13, day 0 / last + 1
+            which = src.choice(["m0", "m13", "m-1", "d0", "d+1", "d-1", "dlast"])
+            if which == "dlast":
+                d = cal.dim(y, m)
+            else:
+                if which.startswith("m"):
+                    m = {"m0": 0, "m13": 13, "m-1": -1}[which]
+                else:
+                    d = {"d0": 0, "d+1": cal.dim(y, m) + 1, "d-1": -1}[which]
+                return {"kind": "date", "how": how, "expr": "date(%s, %s, %s)" % (num(y), num(m), num(d)), "expect": "null", "nt": True,
+                        "labels": ["component-out-of-range:" + which]}
         return {"kind": "date", "how": how, "expr": "date(%s, %d, %d)" % (num(y), m, d),
                 "expect": {"k": "date", "y": y, "m": m, "d": d}, "nt": not 1000 <= y <= 9999,
                 "labels": ["year<0" if y < 0 else "year<1000" if y < 1000 else "year>=1000"]}
@@ -749,6 +761,14 @@ def gen_value(src):
         # a seconds argument finer than a nanosecond: whether it is cut or rounded is not C14's subject, so no value is expected; the text
         # of whatever time results must still be a valid literal that reads back equal
         beyond = len(frac) > 10
+        if src.bool(0.12):
+            # one component just outside its range: hour 24, minute / second 60, a negative one
+            which = src.choice(["h24", "h-1", "mi60", "mi-1", "s60", "s-1", "s61"])
+            hh, mm, ss = (24 if which == "h24" else -1 if which == "h-1" else h), (60 if which == "mi60" else -1 if which == "mi-1" else mi), \
+                         ({"s60": "60", "s-1": "(-1)", "s61": "61"}.get(which, sec))
+            tail = "" if how == "time3" else ', duration("PT1H")'
+            return {"kind": "time", "how": how, "expr": "time(%s, %s, %s%s)" % (num(hh), num(mm), ss, tail), "expect": "null", "nt": True,
+                    "labels": ["component-out-of-range:" + which]}
         if how == "time3":
             return {"kind": "time", "how": how, "expr": "time(%d, %d, %s)" % (h, mi, sec),
                     "expect": None if beyond else {"k": "time", "h": h, "mi": mi, "s": s, "ns": ns, "z": None}, "nt": bool(ns),
@@ -761,7 +781,7 @@ def gen_value(src):
         elif cls == "subhour":
             off = -src.int(1, 3599)
         elif cls == "edge":
-            off = src.choice([53999, -53999, 50400, -50400, 0])
+            off = src.choice([53999, -53999, 50400, -50400, 0, 54000, -54000, 54001, -54001, 86400])
         else:
             off = src.choice([1, -1]) * src.int(54000, 10 ** 7)
         dur = cal.fmt_dtd(off * cal.NS)
